@@ -334,7 +334,7 @@ fn run_inner2(rng: &mut Rng, style: usize, trace: &mut Vec<(usize, Vec<D3>)>) ->
                 return out;
             }
             Err(p) => {
-                out.fail(Fail::panic("panic", &p, &format!("analysis check after step {step}"), cj));
+                out.fail(Fail::check_panic(&p, &format!("analysis check after step {step}"), cj));
                 return out;
             }
         }
